@@ -826,6 +826,26 @@ func runReceiverCount(c *Ctx) {
 					}
 					return "", false, false
 				}},
+				{Cond: func(g *FuncInfo, e ast.Expr) (string, bool, bool) {
+					// <element>.PeerID != <the joiner's id>
+					eq, ok := ast.Unparen(e).(*ast.BinaryExpr)
+					if !ok || (eq.Op != token.EQL && eq.Op != token.NEQ) {
+						return "", false, false
+					}
+					idSide := eq.X
+					if sel, isSel := ast.Unparen(idSide).(*ast.SelectorExpr); !isSel || sel.Sel.Name != "PeerID" {
+						idSide = eq.Y
+					}
+					sel, ok := ast.Unparen(idSide).(*ast.SelectorExpr)
+					if !ok || sel.Sel.Name != "PeerID" {
+						return "", false, false
+					}
+					eo := ObjOf(g.Info(), sel.X)
+					if eo == nil {
+						return "", false, false
+					}
+					return fmt.Sprintf("not-self:%d", eo.Pos()), eq.Op == token.NEQ, true
+				}},
 			}}
 			// the element's fact ends with the iteration
 			roleSpec.KillMatch = func(g *FuncInfo, nd ast.Node, id string) bool {
@@ -836,7 +856,7 @@ func runReceiverCount(c *Ctx) {
 				}
 				return false
 			}
-			nInc, allGood := 0, true
+			nInc, allGood, countsSelf := 0, true, false
 			ocfg := own.CFG()
 			var rstack []*ast.RangeStmt
 			var walk func(x ast.Node) bool
@@ -861,6 +881,12 @@ func runReceiverCount(c *Ctx) {
 							if elem == nil || !ref.Valid() || !roleSpec.Passed(own, ref, fmt.Sprintf("is-receiver:%d", elem.Pos())) {
 								allGood = false
 							}
+							// F64: a list that comes from Hub.List holds the joiner's own older connection, which the new one replaces
+							if rc, ok := ast.Unparen(r.X).(*ast.CallExpr); ok {
+								if g := p.CalleeInfo(info, rc); g != nil && g.Name == "peers.(*Hub).List" {
+									countsSelf = elem == nil || !ref.Valid() || !roleSpec.Passed(own, ref, fmt.Sprintf("not-self:%d", elem.Pos()))
+								}
+							}
 						}
 					}
 				}
@@ -873,6 +899,9 @@ func runReceiverCount(c *Ctx) {
 			n++
 			k++
 			key := fmt.Sprintf("receiver-count/%s#%d", f.Name, k)
+			c.Check(!countsSelf, key+"/not-self", be.Pos(), "an older connection of the joining peer is not counted against it",
+				"the count over Hub.List that is compared with the receivers-per-host limit includes an older connection of the joining peer itself, which the new connection replaces (the admission test at the insertion leaves it out): "+
+					"a receiver that reconnects under its peer id while the session is full is refused with 429")
 			c.Check(allGood, key, be.Pos(), "the counter compared with the limit counts peers whose Role is \"receiver\"",
 				"the counter `"+o.Name()+"` that is compared with the receivers-per-host limit is incremented for peers that are not tested to be receivers: the host is counted too, and with the limit at N the N-th receiver is refused")
 			return true
